@@ -54,9 +54,9 @@ def run_impl(p, ops, arch):
         elif kind == "append":
             call(arch.append, items[0])
         elif kind == "extend":
-            call(arch.extend, list(items))
+            call(arch.extend, _as_iterable(items))
         elif kind == "iadd":
-            arch += list(items)
+            arch += _as_iterable(items)
         elif kind == "iadd1":
             arch += items[0]
         obs.append((kind, flag, list(arch._contents)))
@@ -115,6 +115,28 @@ def check_history(ctx, drv_reqs, p, dirs, constrained, ops, arch, tag, sample=Fa
     return flat, obs
 
 
+_FORM = [0]
+
+
+def _as_iterable(items):
+    """the documented argument is "an iterable of solutions": lists, tuples, generators, iterators, map and chain objects in turn"""
+    import itertools
+    _FORM[0] += 1
+    k = _FORM[0] % 6
+    items = list(items)
+    if k == 0:
+        return items
+    if k == 1:
+        return tuple(items)
+    if k == 2:
+        return (x for x in items)
+    if k == 3:
+        return iter(items)
+    if k == 4:
+        return map(lambda x: x, items)
+    return itertools.chain(items[: len(items) // 2], items[len(items) // 2:])
+
+
 def run(ctx, drv):
     rng = ctx.rng
     ctx.nontrivial_rule = ("insertion histories (add/append/extend/+=list/+=single, lengths 0..40, 1-4 objectives on grids of 2-4 "
@@ -154,7 +176,7 @@ def run(ctx, drv):
         grid = list(range(0, rng.choice([2, 3, 5])))
         cvs = rng.choice([[0.0], [0.5, 3.0, 0.5, 1.0], [0.0, 0.0, 1.0, 2.0], [2.0]]) if constrained else [0.0]
         sols = [mk_sol(p, [plat.rand_value(rng, grid, special=0.03) for _ in range(nobj)], float(rng.choice(cvs))) for _ in range(rng.randrange(0, 9))]
-        nd = call(C.nondominated, list(sols))
+        nd = call(C.nondominated, _as_iterable(sols))
         arch = C.Archive()
         arch += list(sols)
         want = [s for s in sols if not any(plat.expected_cmp(constrained, dirs, t, s) < 0 for t in sols)]
